@@ -15,6 +15,7 @@ EXTENDS HttpRef
 
 VARIABLES
   wf,         \* the stream is well-formed
+  claimed,    \* whoever generated the stream says it is well-formed (self-check of the generators, see GeneratorClaimHolds)
   expected,   \* the requests it encodes (reference), cut after the first close request when a server is in the way
   total,      \* its length
   fed,        \* bytes handed to the server so far
@@ -25,7 +26,7 @@ VARIABLES
   closed,     \* the server gave up on the connection (parse failure)
   ended       \* the whole stream has been fed and processed
 
-pvars == <<wf, expected, total, fed, taken, ngot, mismatch, broken, closed, ended>>
+pvars == <<wf, claimed, expected, total, fed, taken, ngot, mismatch, broken, closed, ended>>
 
 ParserStates == {"init", "startline", "heads", "all", "fail"}
 
@@ -33,13 +34,13 @@ Expected(bytes, viaServer) ==
   LET p == Parsed(bytes) IN IF p.ok THEN (IF viaServer THEN UpToLast(p.reqs, 1) ELSE p.reqs) ELSE <<>>
 
 PInit(bytes, viaServer) ==
-  /\ wf = WellFormed(bytes)
+  /\ wf = WellFormed(bytes) /\ claimed = FALSE
   /\ expected = Expected(bytes, viaServer)
   /\ total = Len(bytes)
   /\ fed = 0 /\ taken = 0 /\ ngot = 0 /\ mismatch = FALSE /\ broken = {} /\ closed = FALSE /\ ended = FALSE
 
-PStart(bytes, viaServer) ==          \* the same as a step (trace validation: one stream after the other)
-  /\ wf' = WellFormed(bytes)
+PStart(bytes, viaServer, claim) ==   \* the same as a step (trace validation: one stream after the other)
+  /\ wf' = WellFormed(bytes) /\ claimed' = claim
   /\ expected' = Expected(bytes, viaServer)
   /\ total' = Len(bytes)
   /\ fed' = 0 /\ taken' = 0 /\ ngot' = 0 /\ mismatch' = FALSE /\ broken' = {} /\ closed' = FALSE /\ ended' = FALSE
@@ -47,32 +48,34 @@ PStart(bytes, viaServer) ==          \* the same as a step (trace validation: on
 PRecv(n) ==
   /\ n >= 1 /\ fed + n <= total /\ ~ended
   /\ fed' = fed + n
-  /\ UNCHANGED <<wf, expected, total, taken, ngot, mismatch, broken, closed, ended>>
+  /\ UNCHANGED <<wf, claimed, expected, total, taken, ngot, mismatch, broken, closed, ended>>
 
 PCall(given, consumed, st) ==
   /\ broken' = broken \cup (IF st \in ParserStates THEN {} ELSE {"Total"})
                        \cup (IF consumed >= 0 /\ consumed <= given THEN {} ELSE {"ConsumedBounded"})
                        \cup (IF given = fed - taken THEN {} ELSE {"ResumableExactly"})
   /\ taken' = IF consumed <= given THEN taken + consumed ELSE taken
-  /\ UNCHANGED <<wf, expected, total, fed, ngot, mismatch, closed, ended>>
+  /\ UNCHANGED <<wf, claimed, expected, total, fed, ngot, mismatch, closed, ended>>
 
 PDeliver(r) ==
   /\ ngot' = ngot + 1
   /\ mismatch' = (mismatch \/ (wf /\ (ngot + 1 > Len(expected) \/ r # expected[ngot + 1])))
-  /\ UNCHANGED <<wf, expected, total, fed, taken, broken, closed, ended>>
+  /\ UNCHANGED <<wf, claimed, expected, total, fed, taken, broken, closed, ended>>
 
 PClosed ==
   /\ closed' = TRUE
-  /\ UNCHANGED <<wf, expected, total, fed, taken, ngot, mismatch, broken, ended>>
+  /\ UNCHANGED <<wf, claimed, expected, total, fed, taken, ngot, mismatch, broken, ended>>
 
 PEnd ==
   /\ ended' = TRUE
-  /\ UNCHANGED <<wf, expected, total, fed, taken, ngot, mismatch, broken, closed>>
+  /\ UNCHANGED <<wf, claimed, expected, total, fed, taken, ngot, mismatch, broken, closed>>
 
 (* --------------------------------------------------------------------------------------------------------- *)
 Total == "Total" \notin broken
 ConsumedBounded == "ConsumedBounded" \notin broken
 ResumableExactly == "ResumableExactly" \notin broken
+GeneratorClaimHolds == claimed => wf     \* not about the code: a generator that means to produce well-formed streams and does
+                                         \* not (per HttpRef) would silently reduce the check to totality
 SegmentationIndependent ==
   /\ ~mismatch
   /\ (wf /\ ended) => ngot = Len(expected)
